@@ -389,6 +389,27 @@ def main():
                     with Lock("coq.lock", shared=True):
                         mism, cerrs = run_cases(wdir, log, cfg.get("cases_timeout", {}).get(tier, 1200))
 
+    # thorough tier: independent re-check of the compiled theorems with coqchk (axiom summary recorded)
+    coqchk_info = None
+    if tier == "thorough" and not replay and proof_broken is None:
+        with Lock("coq.lock", shared=True):
+            rc, out = sh(["coqchk", "-silent", "-o", "-Q", "theories", "GocqlV", "GocqlV.%s.Props" % pid], cwd=COQ,
+                         timeout=cfg.get("coqchk_timeout", 2400))
+        log.append(out)
+        m = re.search(r"\* Axioms:(.*?)\* Constants/Inductives relying on type-in-type:(.*?)\* Constants/Inductives relying on unsafe \(co\)fixpoints:(.*?)\* Inductives whose positivity is assumed:(.*)", out, re.S)
+        if rc == 0 and m:
+            vals = [" ".join(x.split()) for x in m.groups()]
+            coqchk_info = dict(ok=True, axioms=vals[0], type_in_type=vals[1], unsafe_fixpoints=vals[2], assumed_positivity=vals[3])
+            ax = [a for a in re.findall(r"[A-Za-z0-9_.']+", vals[0]) if a != "none"]
+            bad = [a for a in ax if a.split(".")[-1] not in ALLOWED_AXIOMS and a not in ALLOWED_AXIOMS]
+            if bad or any(v != "<none>" for v in vals[1:]):
+                proof_broken = "coqchk reports: axioms=%s type_in_type=%s unsafe_fix=%s positivity=%s" % tuple(vals)
+        elif rc == 124:
+            coqchk_info = dict(ok=None, note="coqchk timed out; not counted")
+        else:
+            coqchk_info = dict(ok=False, note=out[-800:])
+            proof_broken = "coqchk failed: " + out[-800:]
+
     findings = load_findings(pid)
     nrep = 0
     suppressed = []
@@ -474,7 +495,8 @@ def main():
         print("KNOWN-FINDING: property=%s %s -- %s (%d case(s) this run)" % (pid, fid, findings[fid].get("description", ""), len(vs)))
     cov = dict(
         obligations=au["obligations"], discharged=au["discharged"],
-        checker_cmd="make -f Makefile.coq (coqc 8.16.1, full .vo build) + coqc Audit.v (Print Assumptions) + coqc Cases_*.v (vm_compute)",
+        checker_cmd="make -f Makefile.coq (coqc 8.16.1, full .vo build) + coqc Audit.v (Print Assumptions) + coqc Cases_*.v (vm_compute)" + (
+            " + coqchk -silent -o GocqlV.%s.Props" % pid if tier == "thorough" else ""),
         trusted_base=cfg.get("trusted_base", []) + ["axioms reported by Print Assumptions: %s" % (
             sorted({a for l in au["axioms"].values() for a in l}) or "none (all theorems closed under the global context)")],
         theorems=au["theorems"], theorem_statements=au.get("statements", {}),
@@ -488,7 +510,7 @@ def main():
         known_findings_seen={k: len(v) for k, v in known_seen.items()},
         extra=(impl or {}).get("extra", {}),
         exhaustive=bool((impl or {}).get("extra", {}).get("exhaustive", False)),
-        notes=notes, further_violations_not_listed=len(suppressed),
+        notes=notes, further_violations_not_listed=len(suppressed), coqchk=coqchk_info,
     )
     ev = dict(property_id=pid, tier=tier, seed=seed, level="proof", coverage=cov,
               assumptions=cfg.get("assumptions", []), wall_s=round(wall, 2), violations=len(violations))
